@@ -56,6 +56,7 @@ type Step struct {
 	Pad      string `json:"pad,omitempty"`     // ChannelData from client: "" padded, none
 	Stall    int    `json:"stall,omitempty"`   // PeerData: the (stream) client does not read for this many seconds while Burst datagrams arrive for it
 	Burst    int    `json:"burst,omitempty"`
+	Split    int    `json:"split,omitempty"` // Send / ChannelData from a stream client: the frame is written in two segments, cut at this offset
 	RespLost bool   `json:"resp_lost,omitempty"` // the listener socket fails to write the response (CreatePermission / ChannelBind)
 }
 
